@@ -1,11 +1,21 @@
-/* views: span / array / extents / layout mappings / mdspan / mdarray address exactly the elements they span — C19 (+C05, C02).
- * span: the view is placed over an EXACT-size heap object (VF_BUF): any address outside [p, p+n) is a bounds failure. */
+/* views: span / array / extents / layout mappings / mdspan address exactly the elements they span — C19 (+C05, C02).
+ * The family is lowered in parts (family.json variants, VF_PART): 0 span+array (variant `safe`: SAFE contract configuration), 1 extents, 3 layout_left/right,
+ * 4 layout_stride, 2 mdspan over left/right, 5 mdspan over stride, 6 linalg::layout_transpose + submdspan_extents; VF_IT selects the index type.
+ * span: the view is placed over an EXACT-size heap object (VF_BUF): any address outside [p, p+n) is a bounds failure.
+ * Not lowered: mdarray (clang-14 rejects mdarray.hpp:75), submdspan (commented out in the library), rank-0 layout_left/right::operator()() (clang-14),
+ * the declared-but-undefined members of layout_stride (required_span_size, is_exhaustive, operator==, converting constructors) — see driver.cpp. */
+#ifndef VF_PART
+#define VF_PART 0
+#endif
+#define DYNV 18446744073709551615UL
+/* development aid only: sed VF_KNOWN( -> DEVKN( to see what remains once the findings are listed */
+#define DEVKN(id, w) __CPROVER_assume(!(w))
+#if VF_PART == 0
 typedef struct etl_span_int_18446744073709551615 SD;
 typedef struct etl_span_int_4 S4;
 typedef struct etl_span_int_0 S0;
 typedef struct etl_array_int_4 A4;
 typedef struct etl_array_int_0 A0;
-#define DYNV 18446744073709551615UL
 /* C05 snapshot: the view object and the viewed elements are unmodified when the handler runs */
 const SD *vf_sd_of; SD vf_sd_snap; const S4 *vf_s4_of; S4 vf_s4_snap; const A4 *vf_a4_of; A4 vf_a4_snap; const int *vf_buf_of, *vf_buf_in; unsigned long vf_buf_n;
 #define VF_HANDLER_CHECK() do { _Bool same = 1; \
@@ -15,7 +25,11 @@ const SD *vf_sd_of; SD vf_sd_snap; const S4 *vf_s4_of; S4 vf_s4_snap; const A4 *
     if (vf_buf_of) for (unsigned long k_ = 0; k_ < vf_buf_n; ++k_) same = same && vf_buf_of[k_] == vf_buf_in[k_]; \
     __CPROVER_assert(same, "C05: the view and the viewed elements are unmodified when the assertion handler runs"); } while (0)
 #define EXPECT_VIOLATION_BUF(p, n) do { vf_expect_handler = 1; vf_buf_of = (p); vf_buf_in = p##_in; vf_buf_n = (n); } while (0)
+#endif
+#if VF_PART != 1   /* part 1 (extents) contains no TETL_PRECONDITION site: the lowered code has neither etl::assert_msg nor a call of the handler */
 #include "vf_handler.h"
+#endif
+#if VF_PART == 0
 #define MKSD(s, p, n) SD s; s._storage._data = (p); s._storage._size = (n)
 #define MKS4(s, p) S4 s; s._storage._data = (p)
 #define INSIDE(d, m, p, n) ((d) >= (p) && (m) <= (unsigned long)(n) && (d) + (m) <= (p) + (n))
@@ -23,7 +37,9 @@ const SD *vf_sd_of; SD vf_sd_snap; const S4 *vf_s4_of; S4 vf_s4_snap; const A4 *
     VF_ASSERT(e_ == (unsigned long)(xe), #call ": the static extent of the result type"); VF_ASSERT(INSIDE(d_, n_, p, n), #call ": the result lies inside the original range"); } while (0)
 #define OUT &d_, &n_
 
-/*@GROUP name=span_dyn_obs props=C19,C02,C05 kind=K unwind=8 bound=len<=6@*/
+#endif
+
+/*@GROUP name=span_dyn_obs props=C19,C02,C05 kind=K unwind=8 bound=len<=6 when=VF_PART==0@*/
 void h_span_dyn_obs(void) { VF_INPUT(unsigned char, n); VF_BUF(int, p, n, 6); VF_INPUT(unsigned char, i); MKSD(s, p, n);
   VF_ASSERT(sd_data(&s) == p && sd_size(&s) == n && sd_size_bytes(&s) == 4UL * n && sd_empty(&s) == (n == 0) && sd_extent() == DYNV, "span<int>: data/size/size_bytes/empty/extent");
   VF_ASSERT(sd_begin(&s) == p && sd_end(&s) == p + n && sd_rbegin_base(&s) == p + n && sd_rend_base(&s) == p, "span<int>: begin/end, rbegin().base() == end(), rend().base() == begin()");
@@ -33,7 +49,7 @@ void h_span_dyn_obs(void) { VF_INPUT(unsigned char, n); VF_BUF(int, p, n, 6); VF
   { unsigned char *bd = 0; unsigned long bn = 99; unsigned long be = sd_as_wbytes(&s, &bd, &bn); VF_ASSERT(bd == (unsigned char *)p && bn == 4UL * n && be == DYNV, "as_writable_bytes(span<int>): same address, size_bytes() bytes, dynamic extent"); }
   VF_REACH(); }
 
-/*@GROUP name=span_dyn_sub props=C19,C02,C05 kind=K unwind=8 bound=len<=6@*/
+/*@GROUP name=span_dyn_sub props=C19,C02,C05 kind=K unwind=8 bound=len<=6 when=VF_PART==0@*/
 void h_span_dyn_sub(void) { VF_INPUT(unsigned char, n); VF_BUF(int, p, n, 6); VF_INPUT(unsigned char, o); VF_INPUT(unsigned char, c); MKSD(s, p, n);
   if (c <= n) { SUBIS(sd_first_n(&s, c, OUT), p, c, DYNV); SUBIS(sd_last_n(&s, c, OUT), p + (n - c), c, DYNV); }
   if (o <= n) { SUBIS(sd_subspan_o(&s, o, OUT), p + o, n - o, DYNV); SUBIS(sd_subspan_oc(&s, o, DYNV, OUT), p + o, n - o, DYNV); if (c <= n - o) SUBIS(sd_subspan_oc(&s, o, c, OUT), p + o, c, DYNV); }
@@ -44,7 +60,7 @@ void h_span_dyn_sub(void) { VF_INPUT(unsigned char, n); VF_BUF(int, p, n, 6); VF
   if (n >= 4) { SUBIS(sd_first_4(&s, OUT), p, 4, 4); SUBIS(sd_last_4(&s, OUT), p + (n - 4), 4, 4); SUBIS(sd_sub_4(&s, OUT), p + 4, n - 4, DYNV); SUBIS(sd_sub_4_0(&s, OUT), p + 4, 0, 0); }
   VF_REACH(); }
 
-/*@GROUP name=span_static props=C19,C02,C05 kind=K unwind=6@*/
+/*@GROUP name=span_static props=C19,C02,C05 kind=K unwind=6 when=VF_PART==0@*/
 void h_span_static(void) { const unsigned long n = 4; VF_BUF(int, p, 4, 4); VF_INPUT(unsigned char, i); VF_INPUT(unsigned char, o); VF_INPUT(unsigned char, c); MKS4(s, p);
   VF_ASSERT(s4_data(&s) == p && s4_size(&s) == 4 && s4_size_bytes(&s) == 16 && !s4_empty(&s) && s4_extent() == 4, "span<int,4>: data/size/size_bytes/empty/extent");
   VF_ASSERT(s4_begin(&s) == p && s4_end(&s) == p + 4 && s4_rbegin_base(&s) == p + 4 && s4_rend_base(&s) == p, "span<int,4>: begin/end/rbegin/rend");
@@ -57,7 +73,7 @@ void h_span_static(void) { const unsigned long n = 4; VF_BUF(int, p, 4, 4); VF_I
   SUBIS(s4_sub_0_0(&s, OUT), p, 0, 0); SUBIS(s4_sub_0_4(&s, OUT), p, 4, 4); SUBIS(s4_sub_1_2(&s, OUT), p + 1, 2, 2); SUBIS(s4_sub_1_3(&s, OUT), p + 1, 3, 3); SUBIS(s4_sub_4_0(&s, OUT), p + 4, 0, 0); SUBIS(s4_sub_2_1(&s, OUT), p + 2, 1, 1);
   VF_REACH(); }
 
-/*@GROUP name=span_ctor props=C19,C02 kind=K unwind=8 bound=len<=6@*/
+/*@GROUP name=span_ctor props=C19,C02 kind=K unwind=8 bound=len<=6 when=VF_PART==0@*/
 void h_span_ctor(void) { VF_INPUT(unsigned char, n); VF_BUF(int, p, n, 6); VF_INPUT(A4, arr); VF_INPUT(A0, arr0); VF_INPUT(SD, a); VF_INPUT(SD, b); VF_INPUT(S4, t);
   sd_default(&a); VF_ASSERT(a._storage._data == 0 && a._storage._size == 0, "span(): data() == nullptr, size() == 0");
   sd_ctor_ptr_n(&a, p, n); VF_ASSERT(a._storage._data == p && a._storage._size == n, "span(ptr, count)");
@@ -76,7 +92,7 @@ void h_span_ctor(void) { VF_INPUT(unsigned char, n); VF_BUF(int, p, n, 6); VF_IN
   VF_REACH(); }
 
 /* ---- C05: span ---------------------------------------------------------------------------------------------------- */
-/*@GROUP name=viol_span_index props=C05,C02 kind=K unwind=8 bound=len<=6@*/
+/*@GROUP name=viol_span_index props=C05,C02 kind=K unwind=8 bound=len<=6 when=VF_PART==0@*/
 void h_viol_span_index(void) { VF_INPUT(unsigned char, n); VF_BUF(int, p, n, 6); VF_INPUT(unsigned long, i); VF_INPUT(unsigned char, op); MKSD(s, p, n); MKS4(t, p); S0 z; z._storage._data = p;
   EXPECT_VIOLATION_BUF(p, n); vf_sd_of = &s; vf_sd_snap = s; vf_s4_of = &t; vf_s4_snap = t;
   if (op == 0) { __CPROVER_assume(i >= n); sd_index(&s, i); }
@@ -86,7 +102,7 @@ void h_viol_span_index(void) { VF_INPUT(unsigned char, n); VF_BUF(int, p, n, 6);
   else if (op == 4) s0_front(&z); else if (op == 5) s0_back(&z); else s0_index(&z, i);
   VF_NORETURN_EXPECTED(); }
 
-/*@GROUP name=viol_span_sub props=C05,C02 kind=K unwind=8 bound=len<=6@*/
+/*@GROUP name=viol_span_sub props=C05,C02 kind=K unwind=8 bound=len<=6 when=VF_PART==0@*/
 void h_viol_span_sub(void) { VF_INPUT(unsigned char, n); VF_BUF(int, p, n, 6); VF_INPUT(unsigned long, o); VF_INPUT(unsigned long, c); VF_INPUT(unsigned char, op); VF_INPUT_BOOL(st); MKSD(s, p, n); MKS4(t, p);
   int *d = 0; unsigned long m = 0; if (st) __CPROVER_assume(n == 4);
   EXPECT_VIOLATION_BUF(p, n); vf_sd_of = &s; vf_sd_snap = s; vf_s4_of = &t; vf_s4_snap = t;
@@ -97,10 +113,10 @@ void h_viol_span_sub(void) { VF_INPUT(unsigned char, n); VF_BUF(int, p, n, 6); V
   else { __CPROVER_assume(o <= n && c != DYNV && c > n - o); if (st) s4_subspan_oc(&t, o, c, &d, &m); else sd_subspan_oc(&s, o, c, &d, &m); }
   VF_NORETURN_EXPECTED(); }
 
-/*@GROUP name=viol_span_tmpl props=C05,C02 kind=K unwind=8 bound=len<=6@*/
+/*@GROUP name=viol_span_tmpl props=C05,C02 kind=K unwind=8 bound=len<=6 when=VF_PART==0@*/
 void h_viol_span_tmpl(void) { VF_INPUT(unsigned char, n); VF_BUF(int, p, n, 6); VF_INPUT(unsigned char, op); MKSD(s, p, n); int *d = 0; unsigned long m = 0;
   /* [span.sub]: first<C>/last<C>/subspan<O,C> on a dynamic-extent span require C <= size() resp. O <= size() && C <= size() - O */
-  DEVKN(C05_span_tmpl_count_unchecked, op <= 5);
+  VF_KNOWN(C05_span_tmpl_count_unchecked, op <= 5);
   EXPECT_VIOLATION_BUF(p, n); vf_sd_of = &s; vf_sd_snap = s;
   if (op == 0) { __CPROVER_assume(n < 2); sd_first_2(&s, &d, &m); }
   else if (op == 1) { __CPROVER_assume(n < 2); sd_last_2(&s, &d, &m); }
@@ -112,6 +128,7 @@ void h_viol_span_tmpl(void) { VF_INPUT(unsigned char, n); VF_BUF(int, p, n, 6); 
   VF_NORETURN_EXPECTED(); }
 
 /*@COMMON@*/
+#if VF_PART >= 1
 /* ---- extents / layout mappings: one checker per pattern of patterns.def, selected by the symbolic input `which` --------------------
  * A pattern is (R; S0,S1,S2) with Sk in {0,1,3,VD}; positions >= R are padded with the static extent 1 (neutral for every formula).
  * State = the values of the dynamic extents (the struct holds exactly array<IT, rank_dynamic>), set DIRECTLY from symbolic inputs. */
@@ -159,11 +176,10 @@ static const pat_t vf_pats[NPAT + 1] = {
 static _Bool w_mixed(unsigned char which) { return which < NPAT && p_mixed(vf_pats[which]); }
 static _Bool w_mixed_last_static(unsigned char which) { return w_mixed(which) && vf_pats[which].se[vf_pats[which].r - 1] != DYNV; }
 static _Bool w_static_nonzero(unsigned char which) { if (which >= NPAT) return 0; pat_t p = vf_pats[which]; _Bool r = 0; for (int k = 0; k < 3; ++k) r = r || (k < p.r && p.se[k] != DYNV && p.se[k] != 0); return r && p.r > 0; }
-/* development aid only: sed VF_KNOWN( -> DEVKN( to see what remains once the findings are listed */
-#define DEVKN(id, w) __CPROVER_assume(!(w))
 #define NONNEG(x) ((x) >= 0)
 #define SYM3(T, v) VF_INPUT_ARR(T, v, 3)
-
+#endif
+#if VF_PART == 1
 #define CHK_EXT_OBS(name, R, A, B, C, sfx) \
 static void ext_obs_##name(const IT *v, const IT *w, const long *ow, unsigned long k) { const pat_t p = {R, {A, B, C}}; ETYPE(sfx) e, f; DETYPE(R) de; OETYPE(R) oe; IT ev[3], fv[3]; p_vals(p, v, ev); p_vals(p, w, fv); \
   P_SET(IT, &e, p, ev); P_SET(IT, &f, p, fv); { const pat_t dp = {R, {DYNV, DYNV, DYNV}}; P_SET(IT, &de, dp, w); P_SET(long, &oe, dp, ow); } \
@@ -175,8 +191,9 @@ static void ext_obs_##name(const IT *v, const IT *w, const long *ow, unsigned lo
 #define VP CHK_EXT_OBS
 #include "patterns.def"
 #undef VP
+#endif
 
-/*@GROUP name=ext_obs props=C19,C02 kind=K unwind=5@*/
+/*@GROUP name=ext_obs props=C19,C02 kind=K unwind=5 when=VF_PART==1@*/
 void h_ext_obs(void) { VF_INPUT(unsigned char, which); SYM3(IT, v); SYM3(IT, w); SYM3(long, ow); VF_INPUT(unsigned char, k);
   for (int q = 0; q < 3; ++q) __CPROVER_assume(NONNEG(v[q]) && NONNEG(w[q]) && ow[q] >= 0);
 #define VP(name, R, A, B, C, sfx) if (which == IDX_##name) ext_obs_##name(v, w, ow, k);
@@ -185,6 +202,26 @@ void h_ext_obs(void) { VF_INPUT(unsigned char, which); SYM3(IT, v); SYM3(IT, w);
   VF_REACH(); }
 
 /*@COMMON@*/
+#if VF_PART == 1
+/* fwd_prod_of_extents(k) = prod_{q<k} E_q, rev_prod_of_extents(k) = prod_{q>k} E_q (public helpers behind stride() / required_span_size()) */
+#define CHK_EXT_PROD(name, R, A, B, C, sfx) \
+static void ext_prod_##name(const IT *v, unsigned char k) { const pat_t p = {R, {A, B, C}}; ETYPE(sfx) e; IT ev[3]; p_vals(p, v, ev); P_SET(IT, &e, p, ev); \
+  unsigned long f = 1, r = 1; for (int q = 0; q < 3; ++q) { if (q < k) f *= (unsigned long)ev[q]; if (q > k) r *= (unsigned long)ev[q]; } \
+  if (k <= R) VF_ASSERT(name##_fwd(&e, k) == f, #name ": fwd_prod_of_extents(k) == E_0 * ... * E_{k-1}"); if (k < R) VF_ASSERT(name##_rev(&e, k) == r, #name ": rev_prod_of_extents(k) == E_{k+1} * ... * E_{R-1}"); }
+#define VP CHK_EXT_PROD
+#include "patterns.def"
+#undef VP
+#endif
+
+/*@GROUP name=ext_prod props=C19,C02 kind=B bound=extent<=4 unwind=5 objbits=14 timeout=1500 when=VF_PART==1@*/
+void h_ext_prod(void) { VF_INPUT(unsigned char, which); SYM3(unsigned char, dv); VF_INPUT(unsigned char, k); for (int q = 0; q < 3; ++q) __CPROVER_assume(dv[q] <= 4); IT v[3]; for (int q = 0; q < 3; ++q) v[q] = (IT)dv[q];
+#define VP(name, R, A, B, C, sfx) if (which == IDX_##name) ext_prod_##name(v, k);
+#include "patterns.def"
+#undef VP
+  VF_REACH(); }
+
+/*@COMMON@*/
+#if VF_PART == 1
 #define CHK_EXT_CTOR(name, R, A, B, C, sfx) \
 static void ext_ctor_##name(const IT *v, unsigned char op) { const pat_t p = {R, {A, B, C}}; const pat_t dp = {R, {DYNV, DYNV, DYNV}}; ETYPE(sfx) e; DETYPE(R) de; OETYPE(R) oe; IT ev[3], pv[3]; long lv[3]; \
   p_vals(p, v, ev); p_pack(p, ev, pv); for (int q = 0; q < 3; ++q) lv[q] = (long)ev[q]; \
@@ -208,28 +245,30 @@ static void ext_ctor_##name(const IT *v, unsigned char op) { const pat_t p = {R,
 /* known findings of the ext_ctor groups.
  * C19_extents_ctor_all_mixed: extents.hpp:113-118: extents(span<T,N>) with N == rank() copies all N values into the rank_dynamic()-element array (out-of-bounds write, wrong slots).
  * C19_extents_conv_wrong_side: extents.hpp:89: the converting constructor tests the SOURCE's static_extent(i): static source extents are dropped (left 0), own static positions are written. */
+#endif
 
-/*@GROUP name=ext_ctor_r012 props=C19,C02 kind=K unwind=5 objbits=14@*/
+/*@GROUP name=ext_ctor_r012 props=C19,C02 kind=K unwind=5 objbits=14 timeout=1500 when=VF_PART==1@*/
 #define RSEL(R) (R <= 2)
 void h_ext_ctor_r012(void) { VF_INPUT(unsigned char, which); SYM3(IT, v); VF_INPUT(unsigned char, op); __CPROVER_assume(op <= 10); for (int q = 0; q < 3; ++q) __CPROVER_assume(NONNEG(v[q]) && (unsigned long)v[q] <= 0x7fffffffffffffffUL);
-  DEVKN(C19_extents_ctor_all_mixed, (op == 2 || op == 4 || op == 6) && w_mixed(which));
-  DEVKN(C19_extents_conv_wrong_side, ((op == 7 || op == 9) && w_mixed_last_static(which)) || ((op == 8 || op == 10) && w_static_nonzero(which)));
+  VF_KNOWN(C19_extents_ctor_all_mixed, (op == 2 || op == 4 || op == 6) && w_mixed(which));
+  VF_KNOWN(C19_extents_conv_wrong_side, ((op == 7 || op == 9) && w_mixed_last_static(which)) || ((op == 8 || op == 10) && w_static_nonzero(which)));
 #define VP(name, R, A, B, C, sfx) if (RSEL(R) && which == IDX_##name) ext_ctor_##name(v, op);
 #include "patterns.def"
 #undef VP
   VF_REACH(); }
 
-/*@GROUP name=ext_ctor_r3 props=C19,C02 kind=K unwind=5 objbits=14@*/
+/*@GROUP name=ext_ctor_r3 props=C19,C02 kind=K unwind=5 objbits=14 timeout=1500 when=VF_PART==1@*/
 #define RSEL(R) (R == 3)
 void h_ext_ctor_r3(void) { VF_INPUT(unsigned char, which); SYM3(IT, v); VF_INPUT(unsigned char, op); __CPROVER_assume(op <= 10); for (int q = 0; q < 3; ++q) __CPROVER_assume(NONNEG(v[q]) && (unsigned long)v[q] <= 0x7fffffffffffffffUL);
-  DEVKN(C19_extents_ctor_all_mixed, (op == 2 || op == 4 || op == 6) && w_mixed(which));
-  DEVKN(C19_extents_conv_wrong_side, ((op == 7 || op == 9) && w_mixed_last_static(which)) || ((op == 8 || op == 10) && w_static_nonzero(which)));
+  VF_KNOWN(C19_extents_ctor_all_mixed, (op == 2 || op == 4 || op == 6) && w_mixed(which));
+  VF_KNOWN(C19_extents_conv_wrong_side, ((op == 7 || op == 9) && w_mixed_last_static(which)) || ((op == 8 || op == 10) && w_static_nonzero(which)));
 #define VP(name, R, A, B, C, sfx) if (RSEL(R) && which == IDX_##name) ext_ctor_##name(v, op);
 #include "patterns.def"
 #undef VP
   VF_REACH(); }
 
 /*@COMMON@*/
+#if VF_PART >= 1
 /* ---- layout_left / layout_right ------------------------------------------------------------------------------------------------------
  * Reference (closed form, [mdspan.layout.left/right]): left: stride(k) = prod_{q<k} E_q, right: stride(k) = prod_{q>k} E_q, map(i) = sum i_k * stride(k),
  * required_span_size = prod E_q.  Dynamic extents are symbolic in [0,4] (bounded: the products are non-linear), widened from 8-bit inputs. */
@@ -246,7 +285,8 @@ static void ref_inv_ll(const IT *ev, unsigned char o, IT *ix) { unsigned char e0
 static void ref_inv_lr(const IT *ev, unsigned char o, IT *ix) { unsigned char e2 = (unsigned char)ev[2], e1 = (unsigned char)ev[1]; ix[2] = (IT)(o % e2); ix[1] = (IT)((o / e2) % e1); ix[0] = (IT)((o / e2) / e1); }
 #define WIDEN3(dst, src) IT dst[3]; for (int q_ = 0; q_ < 3; ++q_) dst[q_] = (IT)src[q_]
 #define P_STATIC(R, A, B, C) ((R < 1 || A != DYNV) && (R < 2 || B != DYNV) && (R < 3 || C != DYNV))
-
+#endif
+#if VF_PART == 3
 #define CHK_LAY(name, R, A, B, C, sfx, P, L) \
 static void lay_##P##_##name(const IT *v, const IT *ix, const IT *jx, unsigned char k, unsigned char off) { const pat_t p = {R, {A, B, C}}; MTYPE(L, sfx) m; IT ev[3], inv[3]; unsigned long st[3]; \
   p_vals(p, v, ev); P_SET(IT, &m, p, ev); ref_strides_##P(ev, st); const unsigned long size = ref_size(ev); \
@@ -263,31 +303,353 @@ static void lay_##P##_##name(const IT *v, const IT *ix, const IT *jx, unsigned c
 #undef VP
 #define LAY_BODY(P) VF_INPUT(unsigned char, which); SYM3(unsigned char, dv); SYM3(unsigned char, di); SYM3(unsigned char, dj); VF_INPUT(unsigned char, k); VF_INPUT(unsigned char, off); \
   for (int q = 0; q < 3; ++q) __CPROVER_assume(dv[q] <= 4 && di[q] <= 4 && dj[q] <= 4); WIDEN3(v, dv); WIDEN3(ix, di); WIDEN3(jx, dj);
+#endif
 
-/*@GROUP name=left_static props=C19,C02 kind=K unwind=5 objbits=14@*/
+/*@GROUP name=left_static props=C19,C02 kind=K unwind=5 objbits=14 timeout=1500 when=VF_PART==3@*/
 void h_left_static(void) { LAY_BODY(ll)
 #define VP(name, R, A, B, C, sfx) if (P_STATIC(R, A, B, C) && which == IDX_##name) lay_ll_##name(v, ix, jx, k, off);
 #include "patterns.def"
 #undef VP
   VF_REACH(); }
 
-/*@GROUP name=left_dyn props=C19,C02 kind=B bound=extent<=4 unwind=5 objbits=14 solver=kissat@*/
+/*@GROUP name=left_dyn props=C19,C02,C05 kind=B bound=extent<=4 unwind=5 objbits=14 timeout=1500 when=VF_PART==3@*/
 void h_left_dyn(void) { LAY_BODY(ll)
 #define VP(name, R, A, B, C, sfx) if (!P_STATIC(R, A, B, C) && which == IDX_##name) lay_ll_##name(v, ix, jx, k, off);
 #include "patterns.def"
 #undef VP
   VF_REACH(); }
 
-/*@GROUP name=right_static props=C19,C02 kind=K unwind=5 objbits=14@*/
+/*@GROUP name=right_static props=C19,C02 kind=K unwind=5 objbits=14 timeout=1500 when=VF_PART==3@*/
 void h_right_static(void) { LAY_BODY(lr)
 #define VP(name, R, A, B, C, sfx) if (P_STATIC(R, A, B, C) && which == IDX_##name) lay_lr_##name(v, ix, jx, k, off);
 #include "patterns.def"
 #undef VP
   VF_REACH(); }
 
-/*@GROUP name=right_dyn props=C19,C02 kind=B bound=extent<=4 unwind=5 objbits=14 solver=kissat@*/
+/*@GROUP name=right_dyn props=C19,C02,C05 kind=B bound=extent<=4 unwind=5 objbits=14 timeout=1500 when=VF_PART==3@*/
 void h_right_dyn(void) { LAY_BODY(lr)
 #define VP(name, R, A, B, C, sfx) if (!P_STATIC(R, A, B, C) && which == IDX_##name) lay_lr_##name(v, ix, jx, k, off);
 #include "patterns.def"
 #undef VP
   VF_REACH(); }
+
+/*@COMMON@*/
+#if VF_PART == 3
+/* ---- construction / conversion / comparison of layout_left / layout_right mappings (no products: full non-negative domain) ---------- */
+#define CHK_LAYC(name, R, A, B, C, sfx, P, L) \
+static void layc_##P##_##name(const IT *v, const IT *w, unsigned char op) { const pat_t p = {R, {A, B, C}}; const pat_t dp = {R, {DYNV, DYNV, DYNV}}; MTYPE(L, sfx) m, m2; DMTYPE(L, R) dm; ETYPE(sfx) e; IT ev[3], fv[3], junk[3] = {1, 1, 1}; \
+  p_vals(p, v, ev); p_vals(p, w, fv); P_SET(IT, &e, p, ev); P_SET(IT, &m, p, junk); P_SET(IT, &m2, p, fv); \
+  if (op == 0) { IT zv[3] = {0, 0, 0}, zev[3]; p_vals(p, zv, zev); name##_##P##_ctor_default(&m); VF_ASSERT(p_holds(p, &m, zev), #name " " #L ": mapping(): dynamic extents are 0"); } \
+  else if (op == 1) { name##_##P##_ctor(&m, &e); VF_ASSERT(p_holds(p, &m, ev), #name " " #L ": mapping(extents) stores the extents"); } \
+  else if (op == 2) { name##_##P##_copy(&m, &m2); VF_ASSERT(p_holds(p, &m, fv), #name " " #L ": mapping(mapping const&)"); } \
+  else if (op == 3) { P_SET(IT, &m, p, ev); _Bool eq = 1, eqd = 1; for (int q = 0; q < R; ++q) { eq = eq && ev[q] == fv[q]; eqd = eqd && ev[q] == w[q]; } P_SET(IT, &dm, dp, w); \
+    VF_ASSERT(name##_##P##_eq(&m, &m2) == eq, #name " " #L ": operator== <=> equal extents"); VF_ASSERT(name##_##P##_eq_dex(&m, &dm) == eqd, #name " " #L ": operator== against the mapping over dextents"); } \
+  else if (op == 4) { P_SET(IT, &dm, dp, ev); name##_##P##_from_dex(&m, &dm); VF_ASSERT(p_holds(p, &m, ev), #name " " #L ": mapping(mapping<dextents> const&) preserves the extents (hence the mapping)"); } \
+  else { P_SET(IT, &m, p, ev); name##_##P##_to_dex(&dm, &m); VF_ASSERT(p_holds(dp, &dm, ev), #name " " #L ": mapping<dextents>(mapping const&) preserves the extents (hence the mapping)"); } }
+#define VP(name, R, A, B, C, sfx) CHK_LAYC(name, R, A, B, C, sfx, ll, left) CHK_LAYC(name, R, A, B, C, sfx, lr, right)
+#include "patterns.def"
+#undef VP
+/* rank <= 1: layout_left <-> layout_right */
+#define CHK_LR(name, R, A, sfx) \
+static void laylr_##name(const IT *v, _Bool dir) { const pat_t p = {R, {A, 1, 1}}; MTYPE(left, sfx) l; MTYPE(right, sfx) r; IT ev[3], junk[3] = {1, 1, 1}, ix[3] = {0, 0, 0}; p_vals(p, v, ev); \
+  if (dir) { P_SET(IT, &l, p, junk); P_SET(IT, &r, p, ev); name##_ll_from_lr(&l, &r); VF_ASSERT(p_holds(p, &l, ev), #name ": layout_left::mapping(layout_right::mapping) keeps the extents"); } \
+  else { P_SET(IT, &r, p, junk); P_SET(IT, &l, p, ev); name##_lr_from_ll(&r, &l); VF_ASSERT(p_holds(p, &r, ev), #name ": layout_right::mapping(layout_left::mapping) keeps the extents"); } \
+  if (R == 1 && (unsigned long)ev[0] > 0) { ix[0] = (IT)((unsigned long)v[1] % (unsigned long)ev[0]); VF_ASSERT(name##_ll_map(&l, ix) == ix[0] && name##_lr_map(&r, ix) == ix[0], #name ": both rank-1 mappings send i to offset i (same offset for every index)"); } \
+  VF_ASSERT(name##_ll_rss(&l) == name##_lr_rss(&r), #name ": same required_span_size()"); }
+CHK_LR(e, 0, 1, ) CHK_LR(e0, 1, 0, _0) CHK_LR(e1, 1, 1, _1) CHK_LR(e3, 1, 3, _3) CHK_LR(ed, 1, VD, _18446744073709551615)
+
+#define LAYC_BODY VF_INPUT(unsigned char, which); SYM3(IT, v); SYM3(IT, w); VF_INPUT(unsigned char, op); __CPROVER_assume(op <= 5); for (int q = 0; q < 3; ++q) __CPROVER_assume(NONNEG(v[q]) && NONNEG(w[q]));
+#endif
+
+/*@GROUP name=left_ctor props=C19,C02 kind=K unwind=5 objbits=14 timeout=1500 when=VF_PART==3@*/
+void h_left_ctor(void) { LAYC_BODY
+  VF_KNOWN(C19_extents_conv_wrong_side, (op == 4 && w_mixed_last_static(which)) || (op == 5 && w_static_nonzero(which)));
+#define VP(name, R, A, B, C, sfx) if (which == IDX_##name) layc_ll_##name(v, w, op);
+#include "patterns.def"
+#undef VP
+  VF_REACH(); }
+
+/*@GROUP name=right_ctor props=C19,C02 kind=K unwind=5 objbits=14 timeout=1500 when=VF_PART==3@*/
+void h_right_ctor(void) { LAYC_BODY
+  VF_KNOWN(C19_extents_conv_wrong_side, (op == 4 && w_mixed_last_static(which)) || (op == 5 && w_static_nonzero(which)));
+#define VP(name, R, A, B, C, sfx) if (which == IDX_##name) layc_lr_##name(v, w, op);
+#include "patterns.def"
+#undef VP
+  VF_REACH(); }
+
+/*@GROUP name=lay_left_right props=C19,C02 kind=K unwind=5 when=VF_PART==3@*/
+void h_lay_left_right(void) { VF_INPUT(unsigned char, which); SYM3(IT, v); VF_INPUT_BOOL(dir); for (int q = 0; q < 3; ++q) __CPROVER_assume(NONNEG(v[q]));
+  if (which == 0) laylr_e(v, dir); else if (which == 1) laylr_e0(v, dir); else if (which == 2) laylr_e1(v, dir); else if (which == 3) laylr_e3(v, dir); else laylr_ed(v, dir);
+  VF_REACH(); }
+
+/*@COMMON@*/
+#if VF_PART >= 1
+/* ---- layout_stride -------------------------------------------------------------------------------------------------------------------
+ * State = extents + strides, both set directly.  map(i) = sum i_k * s_k holds for ANY strides (window: strides in [0,16], extents in [0,4]).
+ * is_unique() is unconditionally true: injectivity is proved under the precondition of [mdspan.layout.stride.cons]: every s_k > 0 and there is a
+ * permutation P with s[P_i] >= s[P_{i-1}] * E[P_{i-1}] (covers padded and permuted strides).
+ * NOT implemented by the library (declared only, no definition -> cannot be called): required_span_size(), is_exhaustive(), operator==, the converting
+ * constructor from other mappings, and layout_left/right::mapping(layout_stride::mapping const&). */
+#define SMTYPE(sfx) struct CAT(etl_layout_stride_mapping_etl_extents_, CAT(ITN, sfx))
+#define S_SET(m, R, s) do { IT *raw_ = (IT *)&(m)._strides; for (int k_ = 0; k_ < R; ++k_) raw_[k_] = (s)[k_]; } while (0)
+static _Bool s_holds(const void *strides, int r, const IT *s) { const IT *raw = (const IT *)strides; _Bool ok = 1; for (int k = 0; k < 3; ++k) if (k < r) ok = ok && raw[k] == s[k]; return ok; }
+static _Bool s_chain(const IT *ev, const IT *s, int a, int b) { return (unsigned long)s[b] >= (unsigned long)s[a] * (unsigned long)ev[a]; }
+static _Bool stride_pre(const IT *ev, const IT *s, int r) { for (int q = 0; q < 3; ++q) if (q < r && !(s[q] > 0)) return 0;
+  if (r <= 1) return 1; if (r == 2) return s_chain(ev, s, 0, 1) || s_chain(ev, s, 1, 0);
+  return (s_chain(ev, s, 0, 1) && s_chain(ev, s, 1, 2)) || (s_chain(ev, s, 0, 2) && s_chain(ev, s, 2, 1)) || (s_chain(ev, s, 1, 0) && s_chain(ev, s, 0, 2))
+      || (s_chain(ev, s, 1, 2) && s_chain(ev, s, 2, 0)) || (s_chain(ev, s, 2, 0) && s_chain(ev, s, 0, 1)) || (s_chain(ev, s, 2, 1) && s_chain(ev, s, 1, 0)); }
+static unsigned long ref_map_s(const IT *ix, const IT *s, int r) { unsigned long o = 0; for (int q = 0; q < 3; ++q) if (q < r) o += (unsigned long)ix[q] * (unsigned long)s[q]; return o; }
+/* REQUIRED-SPAN-SIZE(e, strides) of [mdspan.layout.stride.expo]: 0 if any extent is 0, else 1 + sum (E_k - 1) * s_k */
+static unsigned long ref_rss_s(const IT *ev, const IT *s, int r) { unsigned long o = 1; for (int q = 0; q < 3; ++q) if (q < r) { if (ev[q] == 0) return 0; o += ((unsigned long)ev[q] - 1) * (unsigned long)s[q]; } return o; }
+#endif
+#if VF_PART == 4
+#define CHK_LS(name, R, A, B, C, sfx) \
+static void ls_##name(const IT *v, const IT *s, const IT *ix, const IT *jx, unsigned char k, unsigned char op) { const pat_t p = {R, {A, B, C}}; SMTYPE(sfx) m; ETYPE(sfx) e; IT ev[3], junk[3] = {1, 1, 1}, so[3] = {0, 0, 0}; \
+  p_vals(p, v, ev); P_SET(IT, &e, p, ev); \
+  if (op == 0) { P_SET(IT, &m, p, ev); S_SET(m, R, s); \
+    VF_ASSERT((const void *)name##_ls_extents(&m) == (const void *)&m._extents, #name " stride: extents() refers to the stored extents"); \
+    VF_ASSERT(name##_ls_flags(&m) == 0x2d, #name " stride: is_always_unique/strided and is_unique/is_strided true, is_always_exhaustive false"); \
+    if (k < R) VF_ASSERT(name##_ls_stride(&m, k) == s[k], #name " stride: stride(k) is the stored stride"); \
+    name##_ls_strides(&m, so); VF_ASSERT(s_holds(so, R, s), #name " stride: strides() returns the stored strides"); \
+    if (in_range(ix, ev, R)) { IT o = name##_ls_map(&m, ix); VF_ASSERT((unsigned long)o == ref_map_s(ix, s, R), #name " stride: map(i...) == sum i_k * stride(k)"); \
+      if (stride_pre(ev, s, R)) { VF_ASSERT(NONNEG(o) && (unsigned long)o < ref_rss_s(ev, s, R), #name " stride: 0 <= map(i...) < REQUIRED-SPAN-SIZE"); \
+        if (in_range(jx, ev, R) && differ(ix, jx, R)) VF_ASSERT(name##_ls_map(&m, jx) != o, #name " stride: injective (is_unique) for strides that satisfy the constructor precondition"); } } } \
+  else if (R > 0 && op == 1) { P_SET(IT, &m, p, junk); S_SET(m, R, junk); name##_ls_ctor_arr(&m, &e, s); VF_ASSERT(p_holds(p, &m, ev) && s_holds(&m._strides, R, s), #name " stride: mapping(extents, array) stores extents and strides"); } \
+  else if (R > 0 && op == 2) { P_SET(IT, &m, p, junk); S_SET(m, R, junk); name##_ls_ctor_span(&m, &e, s); VF_ASSERT(p_holds(p, &m, ev) && s_holds(&m._strides, R, s), #name " stride: mapping(extents, span) stores extents and strides"); } \
+  else { IT zv[3] = {0, 0, 0}, zev[3]; p_vals(p, zv, zev); P_SET(IT, &m, p, junk); S_SET(m, R, junk); name##_ls_ctor_default(&m); VF_ASSERT(p_holds(p, &m, zev) && s_holds(&m._strides, R, zv), #name " stride: mapping(): dynamic extents and strides are 0"); } }
+#define VP CHK_LS
+#include "patterns.def"
+#undef VP
+#define LS_BODY VF_INPUT(unsigned char, which); SYM3(unsigned char, dv); SYM3(unsigned char, ds); SYM3(unsigned char, di); SYM3(unsigned char, dj); VF_INPUT(unsigned char, k); VF_INPUT(unsigned char, op); \
+  for (int q = 0; q < 3; ++q) __CPROVER_assume(dv[q] <= 4 && di[q] <= 4 && dj[q] <= 4 && ds[q] <= 16); WIDEN3(v, dv); WIDEN3(s, ds); WIDEN3(ix, di); WIDEN3(jx, dj);
+#endif
+
+/*@GROUP name=stride_r012 props=C19,C02,C05 kind=B bound=extent<=4,stride<=16 unwind=5 objbits=14 timeout=1500 when=VF_PART==4@*/
+void h_stride_r012(void) { LS_BODY
+#define VP(name, R, A, B, C, sfx) if (R <= 2 && which == IDX_##name) ls_##name(v, s, ix, jx, k, op);
+#include "patterns.def"
+#undef VP
+  VF_REACH(); }
+
+/*@GROUP name=stride_r3 props=C19,C02,C05 kind=B bound=extent<=4,stride<=16 unwind=5 objbits=14 timeout=1500 when=VF_PART==4@*/
+void h_stride_r3(void) { LS_BODY
+#define VP(name, R, A, B, C, sfx) if (R == 3 && which == IDX_##name) ls_##name(v, s, ix, jx, k, op);
+#include "patterns.def"
+#undef VP
+  VF_REACH(); }
+
+/*@COMMON@*/
+#if VF_PART == 2 || VF_PART == 5
+/* ---- mdspan<int, E, layout>: element access == data_handle() + map(i...), inside an EXACT-size object of required_span_size() elements ----
+ * State = (pointer, mapping) set directly; the buffer is a fresh heap object of exactly REQUIRED-SPAN-SIZE ints (closed form). */
+#define MDT_ll(sfx) struct CAT(CAT(CAT(etl_mdspan_int_etl_extents_, ITN), sfx), _etl_layout_left)
+#define MDT_lr(sfx) struct CAT(CAT(etl_mdspan_int_etl_extents_, ITN), sfx)
+#define MDT_ls(sfx) struct CAT(CAT(CAT(etl_mdspan_int_etl_extents_, ITN), sfx), _etl_layout_stride)
+#define MAPT_ll(sfx) MTYPE(left, sfx)
+#define MAPT_lr(sfx) MTYPE(right, sfx)
+#define MAPT_ls(sfx) SMTYPE(sfx)
+#define ISLS_ll 0
+#define ISLS_lr 0
+#define ISLS_ls 1
+#define FLAGS_ll 0x3f
+#define FLAGS_lr 0x3f
+#define FLAGS_ls 0x2d
+static void ref_strides_ls(const IT *s, unsigned long *st) { for (int q = 0; q < 3; ++q) st[q] = (unsigned long)s[q]; }
+#define REFSTR_ll(ev, s, st) ref_strides_ll(ev, st)
+#define REFSTR_lr(ev, s, st) ref_strides_lr(ev, st)
+#define REFSTR_ls(ev, s, st) ref_strides_ls(s, st)
+
+#define CHK_MD(name, R, A, B, C, sfx, P) \
+static void md_##P##_##name(const IT *v, const IT *s, const IT *ix, unsigned char k) { const pat_t p = {R, {A, B, C}}; MDT_##P(sfx) md; IT ev[3]; unsigned long st[3]; p_vals(p, v, ev); REFSTR_##P(ev, s, st); \
+  if (ISLS_##P && !stride_pre(ev, s, R)) return; \
+  const unsigned long rss = ISLS_##P ? ref_rss_s(ev, s, R) : ref_size(ev); unsigned long prod = ref_size(ev); if (sizeof(IT) == 1) prod = (unsigned char)prod; \
+  int *buf = (int *)VF_ALLOC(rss * sizeof(int)); md._ptr = buf; P_SET(IT, &md._map, p, ev); if (ISLS_##P) { IT *raw = (IT *)&md._map + (sizeof(md._map) / sizeof(IT) - R); for (int q = 0; q < R; ++q) raw[q] = s[q]; } \
+  VF_ASSERT(name##_m##P##_data(&md) == buf && (const void *)name##_m##P##_mapping(&md) == (const void *)&md._map && (const void *)name##_m##P##_extents(&md) == (const void *)&md._map, #name " mdspan " #P ": data_handle()/mapping()/extents() refer to the stored members"); \
+  VF_ASSERT(name##_m##P##_size(&md) == prod && name##_m##P##_empty(&md) == (prod == 0), #name " mdspan " #P ": size() == product of the extents, empty() == (size() == 0)"); \
+  { unsigned long rd = 99, se = 99; VF_ASSERT(name##_m##P##_rank(&rd, &se, k) == R && rd == (unsigned long)p_nd(p) && (k >= R || se == p.se[k]), #name " mdspan " #P ": rank/rank_dynamic/static_extent"); } \
+  VF_ASSERT(name##_m##P##_flags(&md) == FLAGS_##P, #name " mdspan " #P ": is_unique/is_exhaustive/is_strided forward to the mapping"); \
+  if (k < R) { VF_ASSERT(name##_m##P##_extent(&md, k) == ev[k], #name " mdspan " #P ": extent(k)"); VF_ASSERT((unsigned long)name##_m##P##_stride(&md, k) == st[k], #name " mdspan " #P ": stride(k)"); } \
+  if ((R > 0 || ISLS_##P) && in_range(ix, ev, R)) { const unsigned long o = ref_map(ix, st, R); VF_ASSERT(o < rss, #name " mdspan " #P ": the closed-form offset lies inside the object"); \
+    VF_ASSERT(name##_m##P##_at(&md, ix) == buf + o, #name " mdspan " #P ": &m(i...) == data_handle() + closed-form offset"); \
+    VF_ASSERT(name##_m##P##_at_arr(&md, ix) == buf + o, #name " mdspan " #P ": &m[array{i...}] == data_handle() + closed-form offset"); \
+    VF_ASSERT(name##_m##P##_at_span(&md, ix) == buf + o, #name " mdspan " #P ": &m[span{i...}] == data_handle() + closed-form offset"); } }
+#if VF_PART == 2
+#define VP(name, R, A, B, C, sfx) CHK_MD(name, R, A, B, C, sfx, ll) CHK_MD(name, R, A, B, C, sfx, lr)
+#else
+#define VP(name, R, A, B, C, sfx) CHK_MD(name, R, A, B, C, sfx, ls)
+#endif
+#include "patterns.def"
+#undef VP
+#define MD_BODY VF_INPUT(unsigned char, which); SYM3(unsigned char, dv); SYM3(unsigned char, ds); SYM3(unsigned char, di); VF_INPUT(unsigned char, k); \
+  for (int q = 0; q < 3; ++q) __CPROVER_assume(dv[q] <= 4 && di[q] <= 4 && ds[q] <= 16); WIDEN3(v, dv); WIDEN3(s, ds); WIDEN3(ix, di);
+#endif
+
+/*@GROUP name=mdspan_left props=C19,C02,C05 kind=B bound=extent<=4 unwind=5 objbits=14 timeout=1500 when=VF_PART==2@*/
+void h_mdspan_left(void) { MD_BODY
+#define VP(name, R, A, B, C, sfx) if (which == IDX_##name) md_ll_##name(v, s, ix, k);
+#include "patterns.def"
+#undef VP
+  VF_REACH(); }
+
+/*@GROUP name=mdspan_right props=C19,C02,C05 kind=B bound=extent<=4 unwind=5 objbits=14 timeout=1500 when=VF_PART==2@*/
+void h_mdspan_right(void) { MD_BODY
+#define VP(name, R, A, B, C, sfx) if (which == IDX_##name) md_lr_##name(v, s, ix, k);
+#include "patterns.def"
+#undef VP
+  VF_REACH(); }
+
+/*@GROUP name=mdspan_stride_r012 props=C19,C02,C05 kind=B bound=extent<=4,stride<=16 unwind=5 objbits=14 timeout=1500 when=VF_PART==5@*/
+void h_mdspan_stride_r012(void) { MD_BODY
+#define VP(name, R, A, B, C, sfx) if (R <= 2 && which == IDX_##name) md_ls_##name(v, s, ix, k);
+#include "patterns.def"
+#undef VP
+  VF_REACH(); }
+
+/*@GROUP name=mdspan_stride_r3 props=C19,C02,C05 kind=B bound=extent<=4,stride<=16 unwind=5 objbits=14 timeout=1500 when=VF_PART==5@*/
+void h_mdspan_stride_r3(void) { MD_BODY
+#define VP(name, R, A, B, C, sfx) if (R == 3 && which == IDX_##name) md_ls_##name(v, s, ix, k);
+#include "patterns.def"
+#undef VP
+  VF_REACH(); }
+
+/*@COMMON@*/
+#if VF_PART == 2
+/* ---- mdspan constructors (no products: full non-negative domain; the pointer is only stored) ---------------------------------------- */
+#define CHK_MDC(name, R, A, B, C, sfx, P) \
+static void mdc_##P##_##name(int *buf, const IT *v, unsigned char op) { const pat_t p = {R, {A, B, C}}; MDT_##P(sfx) md, src; MAPT_##P(sfx) m; ETYPE(sfx) e; IT ev[3], pv[3], junk[3] = {1, 1, 1}; p_vals(p, v, ev); p_pack(p, ev, pv); \
+  md._ptr = 0; P_SET(IT, &md._map, p, junk); P_SET(IT, &m, p, ev); P_SET(IT, &e, p, ev); src._ptr = buf; P_SET(IT, &src._map, p, ev); \
+  if (op == 0) name##_m##P##_ctor_map(&md, buf, &m); else if (op == 1) name##_m##P##_ctor_ext(&md, buf, &e); else if (op == 2) name##_m##P##_ctor_dyn(&md, buf, pv); \
+  else if (op == 3) name##_m##P##_ctor_arr(&md, buf, pv); else if (op == 4) name##_m##P##_ctor_span(&md, buf, pv); else name##_m##P##_copy(&md, &src); \
+  VF_ASSERT(md._ptr == buf && p_holds(p, &md._map, ev), #name " mdspan " #P ": the constructor stores the pointer and the extents"); }
+#define VP(name, R, A, B, C, sfx) CHK_MDC(name, R, A, B, C, sfx, ll) CHK_MDC(name, R, A, B, C, sfx, lr)
+#include "patterns.def"
+#undef VP
+#endif
+
+/*@GROUP name=mdspan_ctor props=C19,C02 kind=K unwind=5 objbits=14 timeout=1500 when=VF_PART==2@*/
+void h_mdspan_ctor(void) { VF_INPUT(unsigned char, which); SYM3(IT, v); VF_INPUT(unsigned char, op); VF_INPUT_BOOL(right); VF_INPUT_ARR(int, store, 2); __CPROVER_assume(op <= 5); for (int q = 0; q < 3; ++q) __CPROVER_assume(NONNEG(v[q]));
+#define VP(name, R, A, B, C, sfx) if (which == IDX_##name) { if (right) mdc_lr_##name(store, v, op); else mdc_ll_##name(store, v, op); }
+#include "patterns.def"
+#undef VP
+  VF_REACH(); }
+
+/*@COMMON@*/
+#if VF_PART == 6
+/* ---- linalg::layout_transpose<layout_left/right>::mapping<E> (rank 2): state = the nested mapping over the transposed extents, set directly ----
+ * transposed mapping: map(i, j) == nested(j, i); extents() == transposed nested extents; stride(0) == nested.stride(1), stride(1) == nested.stride(0). */
+#define TTYPE(L, sfx) struct CAT(CAT(CAT(etl_linalg_layout_transpose_etl_layout_, L), _mapping_etl_extents_), CAT(ITN, sfx))
+#define CHK_TR(name, tname, A, B, sfx, tsfx, P, L) \
+static void tr_##P##_##name(const IT *v, const IT *w, const IT *ix, const IT *jx, unsigned char k, unsigned char op) { const pat_t p = {2, {A, B, 1}}; const pat_t tp = {2, {B, A, 1}}; TTYPE(L, sfx) t, t2; MTYPE(L, tsfx) n; ETYPE(sfx) e; \
+  IT ev[3], tev[3], fv[3], tfv[3], junk[3] = {1, 1, 1}, tix[3] = {ix[1], ix[0], 0}, tjx[3] = {jx[1], jx[0], 0}; unsigned long st[3]; \
+  p_vals(p, v, ev); tev[0] = ev[1]; tev[1] = ev[0]; tev[2] = 1; p_vals(p, w, fv); tfv[0] = fv[1]; tfv[1] = fv[0]; tfv[2] = 1; ref_strides_##P(tev, st); \
+  P_SET(IT, &t, tp, tev); P_SET(IT, &t2, tp, tfv); \
+  if (op == 0) { P_SET(IT, &n, tp, tev); P_SET(IT, &t, tp, junk); name##_t##P##_ctor(&t, &n); VF_ASSERT(p_holds(tp, &t, tev), #name " transpose " #L ": mapping(nested) stores the nested mapping"); \
+    P_SET(IT, &n, tp, junk); name##_t##P##_nested(&t, &n); VF_ASSERT(p_holds(tp, &n, tev), #name " transpose " #L ": nested_mapping()"); } \
+  else if (op == 1) { P_SET(IT, &e, p, junk); name##_t##P##_extents(&t, &e); VF_ASSERT(p_holds(p, &e, ev), #name " transpose " #L ": extents() are the nested extents transposed"); \
+    VF_ASSERT(name##_t##P##_rss(&t) == ref_size(ev), #name " transpose " #L ": required_span_size() == product of the extents"); \
+    VF_ASSERT(name##_t##P##_flags(&t) == 0x2d, #name " transpose " #L ": is_(always_)unique / is_(always_)strided forward to the nested mapping (true)"); \
+    _Bool eq = ev[0] == fv[0] && ev[1] == fv[1]; VF_ASSERT(name##_t##P##_eq(&t, &t2) == eq, #name " transpose " #L ": operator== <=> equal extents"); } \
+  else if (op == 2) { if (in_range(ix, ev, 2)) { unsigned long o = name##_t##P##_map(&t, ix[0], ix[1]); VF_ASSERT(o == ref_map(tix, st, 2), #name " transpose " #L ": map(i, j) == nested closed form at (j, i)"); \
+      VF_ASSERT(o < ref_size(ev), #name " transpose " #L ": map(i, j) < required_span_size()"); \
+      if (in_range(jx, ev, 2) && differ(ix, jx, 2)) VF_ASSERT(name##_t##P##_map(&t, jx[0], jx[1]) != o, #name " transpose " #L ": injective"); } } \
+  else { if (k < 2) VF_ASSERT(name##_t##P##_stride(&t, k) == st[1 - k], #name " transpose " #L ": stride(k) == nested stride of the other dimension"); } }
+#define VT(name, tname, A, B, sfx, tsfx) CHK_TR(name, tname, A, B, sfx, tsfx, ll, left) CHK_TR(name, tname, A, B, sfx, tsfx, lr, right)
+#include "transpose.def"
+#undef VT
+enum {
+#define VT(name, tname, A, B, sfx, tsfx) TIDX_##name,
+#include "transpose.def"
+#undef VT
+  NTR };
+#define TR_BODY VF_INPUT(unsigned char, which); SYM3(unsigned char, dv); SYM3(unsigned char, dw); SYM3(unsigned char, di); SYM3(unsigned char, dj); VF_INPUT(unsigned char, k); VF_INPUT(unsigned char, op); __CPROVER_assume(op <= 3); \
+  for (int q = 0; q < 3; ++q) __CPROVER_assume(dv[q] <= 4 && dw[q] <= 4 && di[q] <= 4 && dj[q] <= 4); WIDEN3(v, dv); WIDEN3(w, dw); WIDEN3(ix, di); WIDEN3(jx, dj);
+#endif
+
+/*@GROUP name=transpose_left props=C19,C02,C05 kind=B bound=extent<=4 unwind=5 objbits=14 timeout=1500 when=VF_PART==6@*/
+void h_transpose_left(void) { TR_BODY
+  VF_KNOWN(C19_transpose_stride_index, op == 3 && k < 2);
+#define VT(name, tname, A, B, sfx, tsfx) if (which == TIDX_##name) tr_ll_##name(v, w, ix, jx, k, op);
+#include "transpose.def"
+#undef VT
+  VF_REACH(); }
+
+/*@GROUP name=transpose_right props=C19,C02,C05 kind=B bound=extent<=4 unwind=5 objbits=14 timeout=1500 when=VF_PART==6@*/
+void h_transpose_right(void) { TR_BODY
+  VF_KNOWN(C19_transpose_stride_index, op == 3 && k < 2);
+#define VT(name, tname, A, B, sfx, tsfx) if (which == TIDX_##name) tr_lr_##name(v, w, ix, jx, k, op);
+#include "transpose.def"
+#undef VT
+  VF_REACH(); }
+
+/*@COMMON@*/
+#if VF_PART == 6
+/* ---- submdspan_extents(extents, slices...): full_extent keeps the extent (static stays static), an integer slice drops the dimension ---- */
+static _Bool sub_is(unsigned long r, const unsigned long *se, const IT *ext, unsigned long xr, unsigned long s0, IT e0, unsigned long s1, IT e1, unsigned long s2, IT e2) {
+  const unsigned long xs[3] = {s0, s1, s2}; const IT xe[3] = {e0, e1, e2}; if (r != xr) return 0; for (int q = 0; q < 3; ++q) if ((unsigned long)q < xr && (se[q] != xs[q] || ext[q] != xe[q])) return 0; return 1; }
+#endif
+
+/*@GROUP name=submdspan_extents props=C19,C02 kind=K unwind=5 when=VF_PART==6@*/
+void h_submdspan_extents(void) { VF_INPUT(unsigned char, sel); SYM3(IT, v); VF_INPUT(IT, i); unsigned long se[3] = {7, 7, 7}; IT ext[3] = {7, 7, 7}; unsigned long r;
+  for (int q = 0; q < 3; ++q) __CPROVER_assume(NONNEG(v[q])); __CPROVER_assume(NONNEG(i)); __CPROVER_assume(sel <= 13);
+  const pat_t dd = {2, {DYNV, DYNV, 1}}, ddd = {3, {DYNV, DYNV, DYNV}}, p3d = {2, {3, DYNV, 1}}, p3d1 = {3, {3, DYNV, 1}};
+  DETYPE(2) edd; P_SET(IT, &edd, dd, v); DETYPE(3) eddd; P_SET(IT, &eddd, ddd, v); ETYPE(_3_18446744073709551615) e3d; P_SET(IT, &e3d, p3d, v); ETYPE(_3_18446744073709551615_1) e3d1; P_SET(IT, &e3d1, p3d1, v); ETYPE(_3_3) e33; ETYPE(_3_1) e31; ETYPE(_3_3_3) e333;
+  /* the result type lists the kept static extents in REVERSE order and is constructed from all kept extents (submdspan_extents.hpp:55-60, 79): wrong whenever the
+   * kept static pattern is not a palindrome; with a mix of static and dynamic kept extents the rank()-argument extents constructor also writes out of bounds */
+  VF_KNOWN(C19_submdspan_extents_reversed, sel == 5 || sel == 7 || sel == 12);
+  if (sel == 0) { __CPROVER_assume(1); r = sub_edd_ff(&edd, se, ext); VF_ASSERT(sub_is(r, se, ext, 2, DYNV, v[0], DYNV, v[1], 0, 0), "submdspan_extents(dextents<2>, full, full)"); }
+  else if (sel == 1) { __CPROVER_assume(i < v[0]); r = sub_edd_if(&edd, i, se, ext); VF_ASSERT(sub_is(r, se, ext, 1, DYNV, v[1], 0, 0, 0, 0), "submdspan_extents(dextents<2>, i, full)"); }
+  else if (sel == 2) { __CPROVER_assume(i < v[1]); r = sub_edd_fi(&edd, i, se, ext); VF_ASSERT(sub_is(r, se, ext, 1, DYNV, v[0], 0, 0, 0, 0), "submdspan_extents(dextents<2>, full, i)"); }
+  else if (sel == 3) { __CPROVER_assume(i < v[0] && i < v[1]); r = sub_edd_ii(&edd, i, se, ext); VF_ASSERT(r == 0, "submdspan_extents(dextents<2>, i, i) has rank 0"); }
+  else if (sel == 4) { r = sub_e33_ff(&e33, se, ext); VF_ASSERT(sub_is(r, se, ext, 2, 3, 3, 3, 3, 0, 0), "submdspan_extents(extents<3,3>, full, full)"); }
+  else if (sel == 5) { r = sub_e31_ff(&e31, se, ext); VF_ASSERT(sub_is(r, se, ext, 2, 3, 3, 1, 1, 0, 0), "submdspan_extents(extents<3,1>, full, full) is extents<3,1>"); }
+  else if (sel == 6) { __CPROVER_assume(i < 3); r = sub_e31_if(&e31, i, se, ext); VF_ASSERT(sub_is(r, se, ext, 1, 1, 1, 0, 0, 0, 0), "submdspan_extents(extents<3,1>, i, full) is extents<1>"); }
+  else if (sel == 7) { r = sub_e3d_ff(&e3d, se, ext); VF_ASSERT(sub_is(r, se, ext, 2, 3, 3, DYNV, v[1], 0, 0), "submdspan_extents(extents<3,dyn>, full, full) is extents<3,dyn>"); }
+  else if (sel == 8) { __CPROVER_assume(i < 3); r = sub_e3d_if(&e3d, i, se, ext); VF_ASSERT(sub_is(r, se, ext, 1, DYNV, v[1], 0, 0, 0, 0), "submdspan_extents(extents<3,dyn>, i, full) is extents<dyn>"); }
+  else if (sel == 9) { __CPROVER_assume(i < v[1]); r = sub_e3d_fi(&e3d, i, se, ext); VF_ASSERT(sub_is(r, se, ext, 1, 3, 3, 0, 0, 0, 0), "submdspan_extents(extents<3,dyn>, full, i) is extents<3>"); }
+  else if (sel == 10) { r = sub_eddd_fff(&eddd, se, ext); VF_ASSERT(sub_is(r, se, ext, 3, DYNV, v[0], DYNV, v[1], DYNV, v[2]), "submdspan_extents(dextents<3>, full, full, full)"); }
+  else if (sel == 11) { __CPROVER_assume(i < v[1]); r = sub_eddd_fif(&eddd, i, se, ext); VF_ASSERT(sub_is(r, se, ext, 2, DYNV, v[0], DYNV, v[2], 0, 0), "submdspan_extents(dextents<3>, full, i, full)"); }
+  else if (sel == 12) { __CPROVER_assume(i < v[1]); r = sub_e3d1_fif(&e3d1, i, se, ext); VF_ASSERT(sub_is(r, se, ext, 2, 3, 3, 1, 1, 0, 0), "submdspan_extents(extents<3,dyn,1>, full, i, full) is extents<3,1>"); }
+  else { r = sub_e333_fff(&e333, se, ext); VF_ASSERT(sub_is(r, se, ext, 3, 3, 3, 3, 3, 3, 3), "submdspan_extents(extents<3,3,3>, full, full, full)"); }
+  VF_REACH(); }
+
+/*@COMMON@*/
+#if VF_PART == 3 || VF_PART == 4
+/* ---- C05: mapping::stride(r) with r >= rank() (layout_left.hpp:75, layout_right.hpp:78, layout_stride.hpp:62) ------------------------- */
+#if VF_PART == 3
+#define CHK_VSTR(name, R, A, B, C, sfx) \
+static void vstr_##name(const IT *v, unsigned long r, unsigned char lay) { const pat_t p = {R, {A, B, C}}; MTYPE(left, sfx) l; MTYPE(right, sfx) g; IT ev[3]; p_vals(p, v, ev); \
+  P_SET(IT, &l, p, ev); P_SET(IT, &g, p, ev); vf_expect_handler = 1; if (lay == 0) name##_ll_stride(&l, r); else name##_lr_stride(&g, r); }
+#else
+#define CHK_VSTR(name, R, A, B, C, sfx) \
+static void vstr_##name(const IT *v, unsigned long r, unsigned char lay) { const pat_t p = {R, {A, B, C}}; SMTYPE(sfx) s; IT ev[3]; p_vals(p, v, ev); \
+  P_SET(IT, &s, p, ev); S_SET(s, R, v); vf_expect_handler = 1; name##_ls_stride(&s, r); }
+#endif
+#define VP CHK_VSTR
+#include "patterns.def"
+#undef VP
+#define VSTR_BODY(minrank) VF_INPUT(unsigned char, which); SYM3(unsigned char, dv); VF_INPUT(unsigned long, r); VF_INPUT(unsigned char, lay); __CPROVER_assume(which < NPAT && lay <= 1); WIDEN3(v, dv); \
+  __CPROVER_assume(r >= (unsigned long)vf_pats[which].r && vf_pats[which].r >= minrank);
+#endif
+
+/*@GROUP name=viol_stride_rank_lr props=C05,C02 kind=K unwind=5 objbits=14 timeout=1500 when=VF_PART==3@*/
+void h_viol_stride_rank_lr(void) { VSTR_BODY(1)   /* rank 0: layout_left/right::stride() does not exist (requires rank() > 0) */
+#define VP(name, R, A, B, C, sfx) if (which == IDX_##name) vstr_##name(v, r, lay);
+#include "patterns.def"
+#undef VP
+  VF_NORETURN_EXPECTED(); }
+
+/*@GROUP name=viol_stride_rank_s props=C05,C02 kind=K unwind=5 objbits=14 timeout=1500 when=VF_PART==4@*/
+void h_viol_stride_rank_s(void) { VSTR_BODY(0)
+#define VP(name, R, A, B, C, sfx) if (which == IDX_##name) vstr_##name(v, r, lay);
+#include "patterns.def"
+#undef VP
+  VF_NORETURN_EXPECTED(); }
+
+/*@GROUP name=viol_array_index props=C05,C02 kind=K unwind=8 when=VF_SAFE@*/
+/* array::operator[] carries TETL_PRECONDITION_SAFE(pos < Size): checked in the SAFE configuration only (variant `safe`) */
+void h_viol_array_index(void) { VF_INPUT(A4, a); VF_INPUT(unsigned long, i); VF_INPUT_BOOL(cst); __CPROVER_assume(i >= 4);
+  vf_expect_handler = 1; vf_a4_of = &a; vf_a4_snap = a; if (cst) a4_cindex(&a, i); else a4_index(&a, i); VF_NORETURN_EXPECTED(); }
+
+/*@GROUP name=array_index props=C19,C02,C05 kind=F when=VF_PART==0@*/
+void h_array_index(void) { VF_INPUT(A4, a); VF_INPUT(unsigned char, i); __CPROVER_assume(i < 4);
+  VF_ASSERT(a4_index(&a, i) == a._buf + i && a4_cindex(&a, i) == a._buf + i, "array<int,4>: operator[](i) addresses element i (no handler for a valid index, also under SAFE)"); VF_REACH(); }
